@@ -213,7 +213,7 @@ def regions(draw, phases, nreg, hyst=False):
         krgmax = draw(st.integers(1000, Q))
     plateau_ok = (not hyst) or draw(st.integers(0, 3)) == 0
     for r in range(nreg):
-        if r > 0 and not hyst and draw(st.integers(0, 5)) == 0:
+        if r > 0 and not hyst and draw(st.integers(0, 2)) == 0:
             regs.append(dict(regs[draw(st.integers(0, r - 1))], copied=True))
             continue
         if r > 0 and not hyst:
@@ -293,6 +293,13 @@ def scaled_endpoints(draw, own, given, phases, threept):
         fin = ordered_draw(draw, tab, isg, [0, MINGAP, 0], [0, 0, 0, 6000],
                            [4000 if "G" in phases else 4500, 6000, Q, Q], {0, 2})
         e["SWL"], e["SWCR"], e["SOWCR"], e["SWU"] = fin[0], fin[1], Q - fin[2], fin[3]
+        # the two upper end-points are independent per-cell arrays: SWU below 1-SOWCR (oil still mobile at the largest
+        # water saturation of the cell) is a deck the library accepts and handles explicitly in the three-point
+        # mapping; krw must then reach KRW at SWU and stay there.  Only without a vertical three-point value for krw
+        # (KRWR at 1-SOWCR has no meaning when that saturation lies beyond SWU).
+        if threept and "SWU" in given and "KRWR" not in given and fin[2] - fin[1] >= 600 \
+                and draw(st.integers(0, 2)) == 0:
+            e["SWU"] = draw(st.integers(fin[1] + 300, fin[2] - 100))
     swl = e.get("SWL", 0)
     if "G" in phases:
         cap = Q - swl
@@ -1028,7 +1035,12 @@ class C15(Check):
                 t.append(("w", (1.0 - f["SOWCR"]) - 1.0e-3, "kro", "gt0", None, "krow>0 below 1-SOWCR"))
                 t.append(("w", swl, "kro", "eq", f["KRO"], "krow(SWL)=KRO"))
                 t.append(("w", swl, "pcow", "eq", f["PCW"], "pcow(SWL)=PCW"))
-                if three:
+                if three and e["SWU"] < Q - e["SOWCR"]:
+                    ctx.label("eps:SWU-below-1-SOWCR")
+                    t.append(("w", 1.0 - f["SOWCR"], "krw", "eq", f["KRW"], "krw(1-SOWCR > SWU)=KRW"))
+                    t.append(("w", 0.5 * (f["SWU"] + 1.0 - f["SOWCR"]), "krw", "eq", f["KRW"], "krw(between SWU and 1-SOWCR)=KRW"))
+                    t.append(("w", f["SWCR"], "kro", "eq", vert("KRO", "KRORW"), "krow(SWCR)=KRORW"))
+                elif three:
                     t.append(("w", 1.0 - f["SOWCR"], "krw", "eq", vert("KRW", "KRWR"), "krw(1-SOWCR)=KRWR"))
                     t.append(("w", f["SWCR"], "kro", "eq", vert("KRO", "KRORW"), "krow(SWCR)=KRORW"))
             else:
